@@ -28,6 +28,8 @@ MODES_ENV = {
     "jit": {},
     "nojit": {"NUMBA_DISABLE_JIT": "1"},
     "nonumba": {"VERIF_MODE": "nonumba"},
+    # the interpreter started with -O (assert statements compiled away, __debug__ False); interpreted kernels
+    "pyopt": {"PYTHONOPTIMIZE": "1", "NUMBA_DISABLE_JIT": "1"},
 }
 
 
@@ -64,6 +66,7 @@ class _Fail:
         self.violation = None
         self.error = None
         self.history = []        # the last cases executed before (and including) the first failure, in order
+        self.first = None        # (case, violation) of the first failure
 
 
 def _run_one(sc, case, tally, fail):
@@ -87,6 +90,8 @@ def _run_one(sc, case, tally, fail):
         return
     except Violation as v:
         fail.case, fail.violation = case, v
+        if fail.first is None:
+            fail.first = (case, v)           # before any shrinking: the only failure whose in-process history is known exactly
         tally.frozen = True
         raise
     except Exception as e:  # machinery fault or unclassified library exception: never a VIOLATION by itself
@@ -191,21 +196,28 @@ def _confirm(a, fail):
         return
     if reproduces(single):
         return
+    candidates = []
     hist = list(fail.history)
     if not hist or digest(hist[-1]) != digest(fail.case):
         hist.append(fail.case)
-    n = 2
-    while True:
-        seq = hist[-n:]
-        seq_case = {"__sequence__": [enc(c) for c in seq]}
-        if reproduces(seq_case):
-            fail.case = {"__sequence__": seq}
-            fail.violation = Violation(fail.violation.message + f" [needs the {len(seq) - 1} preceding call(s) in the same process: "
-                                       f"passes when executed alone in a fresh process]", **fail.violation.detail)
-            return
-        if n >= len(hist):
-            break
-        n = min(len(hist), n * 2)
+    candidates.append((hist, fail.violation))
+    if fail.first is not None and fail.history and digest(fail.first[0]) != digest(fail.case):
+        # the reported case was reached by shrinking, i.e. after attempts whose effect on the process is not recorded;
+        # the first failure came after exactly the recorded history
+        candidates.append((list(fail.history), fail.first[1]))
+    for hist, viol in candidates:
+        n = 2
+        while True:
+            seq = hist[-n:]
+            seq_case = {"__sequence__": [enc(c) for c in seq]}
+            if reproduces(seq_case):
+                fail.case = {"__sequence__": seq}
+                fail.violation = Violation(viol.message + f" [needs the {len(seq) - 1} preceding call(s) in the same process: "
+                                           f"passes when executed alone in a fresh process]", **viol.detail)
+                return
+            if n >= len(hist):
+                break
+            n = min(len(hist), n * 2)
     fail.error = ("flaky: the case failed once but does not fail in a fresh process, neither alone nor after the "
                   f"{len(hist) - 1} preceding cases; first message: {fail.violation.message}")
     fail.violation = None
